@@ -314,6 +314,20 @@ def h_place_sse1(P, S):
         ctr += len(db[w])
         if got != want:
             return S.fail("nodes-not-at-prp-derived-addresses")
+    # a fresh key on the SAME scheme object: the placement must follow the new key's permutation
+    K2 = s.KeyGen()
+    edb2 = s.EDBSetup(K2, db)
+    edb2.A = RecList(edb2.A)
+    tab2 = dict(ideal.W.prp.get((bytes(K2.K1), bits), []))
+    ctr = 1
+    for w in db:
+        res, got = _reads(lambda: PL.search(scheme, s, K2, edb2, w))
+        if res != db[w]:
+            return S.fail("wrong-result-after-rekeying")
+        want = [tab2.get(c) for c in range(ctr, ctr + len(db[w]))]
+        ctr += len(db[w])
+        if got != want:
+            return S.fail("placement-not-derived-from-the-new-key")
     return True
 
 
@@ -331,8 +345,8 @@ def _native_moves(P, S):
     kws = PL.keywords_for(cfg)
     db = {kws[i]: [os.urandom(size) for _ in range(6)] for i in range(4)}
     seen = []
+    s = mod.SSEScheme(cfg)           # one scheme object, as a long-lived client would use it
     for rep in range(3):
-        s = mod.SSEScheme(cfg)
         K = s.KeyGen() if (scheme == "CGKO06.SSE1" or rep == 0) else K
         edb = s.EDBSetup(K, db)
         if hasattr(edb, "A"):
@@ -385,7 +399,8 @@ def replay(spec, P, cex):
 def obligations(tier, seed):
     obs = []
     q = tier == "quick"
-    profs = [[1, 1, 1, 1], [2, 1, 3]] if q else [[1, 1, 1, 1], [2, 1, 3], [2, 2, 2, 2], [4, 4], [1, 2, 3, 4]]
+    profs = [[1, 1, 1, 1], [2, 1, 3], [5, 1, 6, 2]] if q else \
+        [[1, 1, 1, 1], [2, 1, 3], [5, 1, 6, 2], [2, 2, 2, 2], [4, 4], [1, 2, 3, 4], [7, 5, 6]]
     for scheme in SORTED_SCHEMES:
         for lens in profs:
             obs.append(ob("c06.label_order.%s.%s" % (scheme, "-".join(map(str, lens))), "harness.c06", "h_label_order",
